@@ -61,8 +61,39 @@ def bad_polygon(rng):
     return gen.poly_str(loops)
 
 
-def stage1(rng, n):
+def lookalike_sets(rng, n):
+    """inputs for compactCells that it does not validate: complete families below many parents, some of them copies that
+    differ only in bits the compaction logic does not look at (mode, high bit, digits beyond the resolution) - e.g. more
+    than twelve pentagon-shaped parents, or the same family twice under different headers"""
     ops = []
+    for _ in range(n):
+        r = rng.randrange(1, 5)
+        fams = []
+        pents = rng.sample(gen.PENT, rng.randrange(1, 13)) if rng.random() < 0.7 else []
+        for bc in pents:
+            fams.append(gen.children(gen.mkcell(r - 1, bc, [0] * (r - 1)), r))
+        for _ in range(rng.randrange(0, 4)):
+            fams.append(gen.children(gen.rand_cell(rng, res=r - 1), r))
+        cells = [c for f in fams for c in f]
+        for _ in range(rng.randrange(1, 4)):
+            f = rng.choice(fams) if fams else []
+            k = rng.randrange(4)
+            if k == 0:
+                alt = [(c & ~(0xF << 59)) | (rng.randrange(2, 16) << 59) for c in f]     # other mode
+            elif k == 1:
+                alt = [c | (1 << 63) for c in f]                                          # high bit
+            elif k == 2:
+                alt = [c & ~(7 << (3 * rng.randrange(0, 15 - r))) for c in f]             # a digit beyond the resolution
+            else:
+                alt = [(c & ~(7 << 56)) for c in f]
+            cells += alt
+        rng.shuffle(cells)
+        ops.append(f"compact {len(cells)} " + " ".join(gen.hx(c) for c in cells))
+    return ops
+
+
+def stage1(rng, n):
+    ops = lookalike_sets(rng, max(10, n // 200))
     for _ in range(n):
         h, g = idx(rng), idx(rng)
         r = anyint(rng)
